@@ -20,7 +20,7 @@
 From Coq Require Import String List ZArith NArith Bool.
 Import ListNotations.
 From Selfies Require Import Base Generated Atoms Grammar Decoder PySet Matching Smiles Kekulize Encoder
-  IndexSpec IndexCode Reader RoundTrip EncoderFacts PureFacts ParserTotal EncFuel EncIndex EncKey EncAttrErr EncUniq EncOrders EncKek EncMatch EncMatchSafe EncCount EncGreedy EncGreedyT EncMatchT EncOutcomes.
+  IndexSpec IndexCode Reader RoundTrip EncoderFacts PureFacts ParserTotal EncFuel EncIndex EncKey EncAttrErr EncUniq EncOrders EncKek EncMatch EncMatchSafe EncCount EncGreedy EncGreedyT EncMatchT EncProbe EncOutcomes EncTotal.
 Local Open Scope string_scope.
 
 Theorem C09_parse_error_is_encoder_error_partial : forall capf s strict attribute,
@@ -154,6 +154,26 @@ Proof.
   intros smiles attribute m0 g e Ep Eg Em. destruct (parsed_matching_fails_only_in_set_ops smiles attribute m0 g e Ep Eg Em) as [H|[H|H]]; auto.
 Qed.
 
+(* ... and the probe loops of the set terminate as well (proofs/EncProbe.v): once the perturbation has died out the probe
+   sequence is i -> 5i+1 modulo the table size, a power of two; that map has full period (U^(2^k) x = x + 2^k modulo
+   2^(k+1), by induction on k), so within `size` rounds a scan starts at an unused slot, and the table is never full
+   (fill*5 < mask*3 after every add, a resize leaves it at most half full).  Hence find_perfect_matching returns on the
+   pruned graph of every parsed molecule, kekulize returns on every parsed molecule, and - THE PROPERTY AS STATED, for the
+   model, up to the one known finding - for every string, every table with a '?' entry and both flags the encoder
+   terminates and returns or raises EncoderError; the only other outcome is the reader's int() ValueError on a digit
+   field of more than 4300 digits (F-C09-int-digits).  (RecursionError, the other known finding, is outside the model:
+   the model's recursion is on fuel, the interpreter's on its stack.) *)
+Theorem C09_kekulize_returns : forall smiles attribute m0,
+  smiles_to_mol smiles attribute = Ok m0 -> exists k, kekulize m0 = Ok k.
+Proof. exact parsed_kekulize_total. Qed.
+
+Theorem C09_encoder_total : forall T smiles strict attribute,
+  (exists v, assoc (lit "?") T = Some v) ->
+  (exists r, encoder T smiles strict attribute = Ok r) \/
+  encoder T smiles strict attribute = Err EncoderError \/
+  encoder T smiles strict attribute = Err ValueError.
+Proof. exact encoder_total. Qed.
+
 (* everything assembled, for EVERY string, every table with a '?' entry and both flags: the model of encoder() returns, or
    raises EncoderError, or the reader's int() refuses an over-long digit field (ValueError: known finding), or ends in
    the model-only outcome OutOfFuel inside find_perfect_matching - i.e. NO OTHER EXCEPTION TYPE ESCAPES; what is not
@@ -192,6 +212,8 @@ Print Assumptions C09_encoder_outcomes_partial.
 Print Assumptions C09_matching_raises_nothing_partial.
 Print Assumptions C09_greedy_phase_returns.
 Print Assumptions C09_matching_fails_only_in_set_operations_partial.
+Print Assumptions C09_kekulize_returns.
+Print Assumptions C09_encoder_total.
 Print Assumptions C09_emission_no_assertion_error_partial.
 Print Assumptions C09_emission_no_value_error_partial.
 Print Assumptions C09_kekulize_leaves_integral_orders.
